@@ -1,14 +1,215 @@
-//! C10 — stub, to be implemented.
-#![allow(dead_code)]
+//! C10 — worker hand-over and soft stop lose no listener and cut no request.
+//!
+//! Tier 1 (`codec`): the fd hand-off codec (`ScmSocket::send_listeners` / `receive_listeners`) for
+//! listener sets 0..200 over all address shapes, under a world with simulated addresses.
+//! Tier 2 (`handover`): see c10_handover.rs (two real workers, scripted master).
+use std::net::SocketAddr;
+use std::os::fd::IntoRawFd;
+
+use serde::{Deserialize, Serialize};
 use serde_json::Value;
+use sozu_command_lib::scm_socket::{Listeners, ScmSocket};
+
 use crate::framework::*;
+use crate::netsim;
+use crate::prng::{Prng, TraceHash};
+use crate::sys;
+use crate::world::{SchedCfg, World};
 
 pub struct C10;
 
+#[derive(Clone, Debug, Serialize, Deserialize)]
+pub struct CodecPlan {
+    pub seed: u64,
+    pub family: String,
+    pub http: Vec<SocketAddr>,
+    pub tls: Vec<SocketAddr>,
+    pub tcp: Vec<SocketAddr>,
+    pub udp: Vec<SocketAddr>,
+    /// receiver reads in nonblocking mode (as the worker does after boot)
+    pub nonblocking_receive: bool,
+}
+
+#[derive(Clone, Debug, Serialize, Deserialize)]
+
+pub enum Plan {
+    Codec(CodecPlan),
+    Handover(super::c10_handover::HandoverPlan),
+}
+
+fn gen_addr(rng: &mut Prng, style: u64, i: usize) -> SocketAddr {
+    match style {
+        // shortest textual IPv4 form
+        0 => format!("{}.{}.{}.{}:{}", 1 + rng.below(9), rng.below(10), rng.below(10), 1 + rng.below(9), 1 + i).parse().unwrap(),
+        // longest textual IPv4 form (21 chars)
+        1 => format!("{}.{}.{}.{}:{}", 100 + rng.below(155), 100 + rng.below(155), 100 + rng.below(155), 100 + rng.below(155), 10000 + i).parse().unwrap(),
+        // IPv6, full length
+        2 => format!("[2001:db8:{:x}:{:x}:{:x}:{:x}:{:x}:{:x}]:{}", 0x1000 + rng.below(0xefff), 0x1000 + rng.below(0xefff), 0x1000 + rng.below(0xefff), 0x1000 + rng.below(0xefff), 0x1000 + rng.below(0xefff), 0x1000 + i, 10000 + i).parse().unwrap(),
+        // IPv6 short
+        3 => format!("[::{:x}]:{}", 1 + i, 1 + i).parse().unwrap(),
+        _ => format!("10.{}.{}.{}:{}", rng.below(256), rng.below(256), rng.below(256), 1024 + i).parse().unwrap(),
+    }
+}
+
+pub fn generate_codec(seed: u64, _tier: Tier) -> CodecPlan {
+    let mut rng = Prng::derive(seed, "c10/codec");
+    // total up to the documented limit MAX_FDS_OUT = 200, biased to the extremes and to the byte-budget edge
+    let total = match rng.below(6) { 0 => rng.below(4) as usize, 1 => 200, 2 => 150 + rng.below(51) as usize, 3 => rng.below(60) as usize, _ => rng.below(201) as usize };
+    let style = rng.below(6);
+    let mut p = CodecPlan { seed, family: String::new(), http: vec![], tls: vec![], tcp: vec![], udp: vec![], nonblocking_receive: rng.below(2) == 0 };
+    let mix = rng.below(4);
+    for i in 0..total {
+        let st = if style == 5 { rng.below(5) } else { style };
+        let a = gen_addr(&mut rng, st, i);
+        let kind = match mix { 0 => 0, 1 => rng.below(3), 2 => rng.below(4), _ => i as u64 % 4 };
+        match kind { 0 => p.http.push(a), 1 => p.tls.push(a), 2 => p.tcp.push(a), _ => p.udp.push(a) }
+    }
+    p.family = format!("codec_{}", ["v4short", "v4long", "v6long", "v6short", "v4", "mixed"][style as usize]);
+    p
+}
+
+/// independent computation of the manifest size: protobuf `ListenersCount` = repeated string fields 1..4,
+/// each entry = 1 tag byte + varint length + text; the whole message is prefixed by its varint length.
+pub fn manifest_len(p: &CodecPlan) -> usize {
+    let body: usize = p.http.iter().chain(p.tls.iter()).chain(p.tcp.iter()).chain(p.udp.iter()).map(|a| { let l = a.to_string().len(); 1 + if l < 128 { 1 } else { 2 } + l }).sum();
+    let prefix = if body < 128 { 1 } else if body < 16384 { 2 } else { 3 };
+    body + prefix
+}
+
+pub fn run_codec(p: &CodecPlan) -> RunReport {
+    let p = p.clone();
+    netsim::on_fresh_thread(move || {
+        let mut w = World::new(p.seed, SchedCfg::default());
+        World::install(&mut w);
+        let mut th = TraceHash::new();
+        let mut rep = RunReport { seed: p.seed, family: p.family.clone(), ..Default::default() };
+        let fds_before = netsim::open_fds();
+        // listening sockets bound to the simulated addresses
+        let mut mk = |w: &mut World, addrs: &Vec<SocketAddr>, dgram: bool| -> Vec<(SocketAddr, i32)> {
+            addrs.iter().map(|a| {
+                let fd = if dgram {
+                    let fd = sys::socket(libc::AF_UNIX, libc::SOCK_DGRAM | libc::SOCK_CLOEXEC, 0).expect("socket");
+                    sys::bind_abstract(fd, &w.udp_name(a)).expect("bind");
+                    fd
+                } else { w.peer_listen(a).expect("listen") };
+                (*a, fd)
+            }).collect()
+        };
+        let sent = Listeners { http: mk(&mut w, &p.http, false), tls: mk(&mut w, &p.tls, false), tcp: mk(&mut w, &p.tcp, false), udp: mk(&mut w, &p.udp, true) };
+        let (a, b) = mio::net::UnixStream::pair().expect("pair");
+        let tx = ScmSocket::new(a.into_raw_fd()).expect("scm");
+        let mut rx = ScmSocket::new(b.into_raw_fd()).expect("scm");
+        let total = p.http.len() + p.tls.len() + p.tcp.len() + p.udp.len();
+        let mlen = manifest_len(&p);
+        let trig = if mlen > 4096 { "manifest_over_4096_bytes" } else { "none" };
+        rep.summary = format!("{} listeners (http {} tls {} tcp {} udp {}), manifest {} bytes, {}", total, p.http.len(), p.tls.len(), p.tcp.len(), p.udp.len(), mlen, p.family);
+        th.mix(total as u64); th.mix(mlen as u64);
+        let send_res = tx.send_listeners(&sent);
+        if let Err(e) = &send_res {
+            rep.violations.push(Violation::new("send_failed", format!("send_error|{trig}"), format!("send_listeners failed for {total} listeners ({mlen} manifest bytes): {e}")));
+        }
+        if p.nonblocking_receive { let _ = rx.set_blocking(false); }
+        let mut received_fds: Vec<i32> = Vec::new();
+        if send_res.is_ok() {
+            match rx.receive_listeners() {
+                Ok(got) => {
+                    th.mix(1);
+                    let cmp = |name: &str, s: &Vec<(SocketAddr, i32)>, g: &Vec<(SocketAddr, i32)>, v: &mut Vec<Violation>| {
+                        if s.len() != g.len() || s.iter().zip(g.iter()).any(|(x, y)| x.0 != y.0) {
+                            v.push(Violation::new("listener_lost", format!("{name}_list_differs|{trig}"), format!("{name}: sent {} addresses, received {} ({:?} ...)", s.len(), g.len(), g.first())));
+                        }
+                        for (addr, fd) in g {
+                            let name_ok = sys::getsockname_un(*fd).ok().and_then(|n| World::parse_name(&n));
+                            if name_ok != Some(*addr) {
+                                v.push(Violation::new("fd_address_mismatch", format!("{name}|{trig}"), format!("{name}: received fd {fd} for {addr} is bound to {name_ok:?}")));
+                            }
+                        }
+                    };
+                    cmp("http", &sent.http, &got.http, &mut rep.violations);
+                    cmp("tls", &sent.tls, &got.tls, &mut rep.violations);
+                    cmp("tcp", &sent.tcp, &got.tcp, &mut rep.violations);
+                    cmp("udp", &sent.udp, &got.udp, &mut rep.violations);
+                    for l in [&got.http, &got.tls, &got.tcp, &got.udp] { for (_, fd) in l.iter() { received_fds.push(*fd); } }
+                }
+                Err(e) => {
+                    th.mix(2);
+                    rep.violations.push(Violation::new("scm_manifest_truncated", format!("receive_error|{trig}"), format!("receive_listeners failed for {total} listeners within the documented limit of 200 ({mlen} manifest bytes, receive buffer 4096): {e}")));
+                }
+            }
+        }
+        // fd audit: everything we created or received is known; anything else still open was leaked by the codec
+        let mut known: Vec<i32> = fds_before.clone();
+        for l in [&sent.http, &sent.tls, &sent.tcp, &sent.udp] { for (_, fd) in l.iter() { known.push(*fd); } }
+        known.push(tx.raw_fd()); known.push(rx.raw_fd());
+        known.extend(received_fds.iter());
+        let now = netsim::open_fds();
+        let leaked: Vec<i32> = now.iter().filter(|fd| !known.contains(fd)).copied().collect();
+        if !leaked.is_empty() {
+            rep.violations.push(Violation::new("fd_leak", format!("after_receive|{trig}"), format!("{} descriptor(s) installed by recvmsg were neither returned nor closed", leaked.len())));
+        }
+        rep.probes.insert(format!("manifest_{}", if mlen > 4096 { "over_4096" } else if mlen > 3500 { "3500_4096" } else { "small" }), 1);
+        rep.probes.insert("listeners_total".into(), total as u64);
+        // cleanup
+        for fd in leaked.iter().chain(received_fds.iter()) { sys::close(*fd); }
+        for l in [&sent.http, &sent.tls, &sent.tcp, &sent.udp] { for (_, fd) in l.iter() { sys::close(*fd); } }
+        sys::close(tx.raw_fd()); sys::close(rx.raw_fd());
+        World::uninstall();
+        rep.nontrivial = total > 0;
+        rep.trace_hash = th.0 ^ (rep.violations.len() as u64);
+        rep
+    })
+}
+
 impl Property for C10 {
     fn id(&self) -> &'static str { "C10" }
-    fn runs(&self, _tier: Tier) -> u64 { 0 }
-    fn gen_plan(&self, _seed: u64, _tier: Tier) -> Value { Value::Null }
-    fn run_plan(&self, _plan: &Value) -> RunReport { RunReport { harness_error: Some("not implemented".into()), ..Default::default() } }
-    fn descr(&self) -> Descr { Descr { level: "exploration", rule: "", assumptions: vec![], real: vec![], stub: vec![], not_covered: vec![] } }
+    fn runs(&self, tier: Tier) -> u64 { match tier { Tier::Quick => 1500, Tier::Thorough => 20000 } }
+    fn gen_plan(&self, seed: u64, tier: Tier) -> Value {
+        let mut rng = Prng::derive(seed, "c10/tier");
+        if rng.below(3) == 0 { serde_json::to_value(Plan::Codec(generate_codec(seed, tier))).unwrap() } else { serde_json::to_value(Plan::Handover(super::c10_handover::generate(seed, tier))).unwrap() }
+    }
+    fn run_plan(&self, plan: &Value) -> RunReport {
+        match serde_json::from_value::<Plan>(plan.clone()) {
+            Ok(Plan::Codec(p)) => run_codec(&p),
+            Ok(Plan::Handover(p)) => super::c10_handover::run(&p, false).0,
+            Err(e) => RunReport { harness_error: Some(format!("bad plan: {e}")), ..Default::default() },
+        }
+    }
+    fn shrink(&self, plan: &Value) -> Vec<Value> {
+        match serde_json::from_value::<Plan>(plan.clone()) {
+            Ok(Plan::Codec(p)) => {
+                let mut out = Vec::new();
+                for which in 0..4 {
+                    let mut q = p.clone();
+                    let l = match which { 0 => &mut q.http, 1 => &mut q.tls, 2 => &mut q.tcp, _ => &mut q.udp };
+                    if l.is_empty() { continue; }
+                    let half = l.len() / 2; l.truncate(half);
+                    out.push(serde_json::to_value(Plan::Codec(q)).unwrap());
+                    let mut q = p.clone();
+                    let l = match which { 0 => &mut q.http, 1 => &mut q.tls, 2 => &mut q.tcp, _ => &mut q.udp };
+                    l.pop();
+                    out.push(serde_json::to_value(Plan::Codec(q)).unwrap());
+                }
+                out
+            }
+            Ok(Plan::Handover(p)) => super::c10_handover::shrink(&p).into_iter().map(|q| serde_json::to_value(Plan::Handover(q)).unwrap()).collect(),
+            _ => vec![],
+        }
+    }
+    fn debug_plan(&self, plan: &Value) -> String {
+        match serde_json::from_value::<Plan>(plan.clone()) {
+            Ok(Plan::Handover(p)) => super::c10_handover::run(&p, true).1,
+            Ok(Plan::Codec(p)) => serde_json::to_string_pretty(&run_codec(&p)).unwrap(),
+            Err(e) => e.to_string(),
+        }
+    }
+    fn descr(&self) -> Descr {
+        Descr {
+            level: "exploration",
+            rule: "two plan families: (codec) listener sets of 0..200 addresses of every textual shape (shortest/longest IPv4, IPv6, mixes over http/tls/tcp/udp) sent with the real ScmSocket::send_listeners and read back with the real receive_listeners, each returned fd checked against its address through getsockname, plus an fd-table audit; (handover) two real workers in one simulation with a scripted master replaying the upgrade sequence at a PRNG-chosen moment relative to client activity; non-trivial = at least one listener / one request; distinct = trace hashes",
+            assumptions: vec!["AF_UNIX listening sockets with simulated addresses stand in for TCP listeners", "release semantics"],
+            real: vec!["sozu_command_lib::scm_socket (SCM_RIGHTS over a real unix socket pair)", "two sozu_lib::server::Server::run loops (handover family)"],
+            stub: vec!["master process (scripted: ReturnListenSockets -> receive -> boot successor -> SoftStop + activate)", "clients", "backends", "clock", "entropy"],
+            not_covered: vec!["the real master's orchestration (bin/src/command/upgrade.rs)", "old worker crashing mid-hand-over", "SO_REUSEPORT balancing"],
+        }
+    }
 }
